@@ -2200,3 +2200,221 @@ Qed.
 
 Lemma pool_empty_trees : length (p_trees pool_empty) = index_count.
 Proof. reflexivity. Qed.
+
+(* ---- vectors: when no request fails, a refusal happens exactly at the 32-bit size limit (round 6) ---- *)
+Definition vec_need (op : vop) (v : vec) : Z :=
+  match op with
+  | VAppend _ | VPrepend _ | VInsert _ _ => vsize v + 1
+  | VResizeGrow n | VResizeFit n | VReserveFit n | VReserveGrow n => n
+  | VReserveAdd n => vsize v + n
+  | VClear | VPop => 0
+  end.
+
+Theorem vec_all_ok_refusal isz op v k r v' k' :
+  vec_inv v -> vec_step all_ok isz op v k = (r, v', k') ->
+  r <> Invalid /\ (r = Oom <-> v_cap v < vec_need op v /\ max_items <= vec_need op v).
+Proof.
+  unfold vec_inv. intros I.
+  destruct op; cbn [vec_step vec_need];
+    unfold vec_reserve_one, vec_reserve_additional, vec_reserve_grow, vec_reserve_fit, vec_reserve_bytes, request, all_ok;
+    repeat match goal with |- context [if ?c then _ else _] => destruct c eqn:? end;
+    rewrite ?Z.leb_le, ?Z.leb_gt, ?Z.ltb_lt, ?Z.ltb_ge, ?Z.eqb_eq, ?Z.eqb_neq in *;
+    unfold max_items in *; intros E; inversion E; subst; (split; [discriminate|]); (split; [try discriminate; intros; lia | intros [? ?]; try reflexivity; lia]).
+Qed.
+
+(* ---- CodeHolder: when no request fails and the vectors are below the 32-bit size limit, nothing reports kOutOfMemory (round 6) ---- *)
+Definition holder_small (h : holder) : Prop :=
+  Z.of_nat (length (ho_labels h)) + 2 < max_items /\ Z.of_nat (length (ho_relocs h)) + 2 < max_items.
+
+Theorem holder_all_ok_never_oom op h k r h' k' :
+  holder_small h -> holder_step all_ok true op h k = (r, h', k') -> r <> Oom.
+Proof.
+  unfold holder_small, max_items. intros [B1 B2].
+  destruct op; cbn [holder_step]; unfold embed_label, embed_delta, new_label, new_reloc, new_fixup, bind_label, labels_vec, relocs_vec,
+    vec_reserve_one, vec_reserve_grow, vec_reserve_bytes, request, all_ok, vsize, max_items; cbn [v_items v_cap];
+    rewrite ?map_length;
+    repeat match goal with
+      | |- context [if ?c then _ else _] => destruct c eqn:?
+      | |- context [match ho_fixup_pool ?x with _ => _ end] => destruct (ho_fixup_pool x)
+      | |- context [match nth_error ?a ?b with _ => _ end] => destruct (nth_error a b)
+      | |- context [match ho_labels ?x with _ => _ end] => destruct (ho_labels x) eqn:?
+      end;
+    rewrite ?Z.leb_le, ?Z.leb_gt, ?Z.ltb_lt, ?Z.ltb_ge, ?Z.eqb_eq, ?Z.eqb_neq in *;
+    intros E; inversion E; subst; try discriminate; try lia.
+Qed.
+
+Definition sects_small (s : sects) : Prop :=
+  Z.of_nat (length (ss_orders s)) + 2 < max_items /\ Z.of_nat (length (ss_by_order s)) + 2 < max_items.
+
+Ltac never_oom_tac :=
+  repeat match goal with
+    | |- context [if ?c then _ else _] => destruct c eqn:?
+    | |- context [match ho_fixup_pool ?x with _ => _ end] => destruct (ho_fixup_pool x)
+    | |- context [match nth_error ?a ?b with _ => _ end] => destruct (nth_error a b)
+    | |- context [match ho_labels ?x with _ => _ end] => destruct (ho_labels x) eqn:?
+    | |- context [match ss_addrtab ?x with _ => _ end] => destruct (ss_addrtab x) eqn:?
+    end;
+  rewrite ?Z.leb_le, ?Z.leb_gt, ?Z.ltb_lt, ?Z.ltb_ge, ?Z.eqb_eq, ?Z.eqb_neq in *;
+  intros E; inversion E; subst; try discriminate; try lia.
+
+Lemma new_section_all_ok order s k r s' k' : sects_small s -> new_section all_ok order s k = (r, s', k') -> r = Ok.
+Proof.
+  unfold sects_small, max_items. intros [B1 B2].
+  unfold new_section, vec_reserve_one, vec_reserve_grow, vec_reserve_bytes, request, all_ok, vsize, max_items; cbn [v_items v_cap ss_orders ss_cap ss_by_order ss_by_cap];
+    rewrite ?map_length;
+    repeat match goal with |- context [if ?c then _ else _] => destruct c eqn:? end;
+    rewrite ?Z.leb_le, ?Z.leb_gt, ?Z.ltb_lt, ?Z.ltb_ge, ?Z.eqb_eq, ?Z.eqb_neq in *;
+    intros E; inversion E; subst; try reflexivity; try lia.
+Qed.
+
+Lemma add_address_all_ok addr s k r s' k' : sects_small s -> add_address all_ok addr s k = (r, s', k') -> r = Ok.
+Proof.
+  intros B. unfold add_address. destruct (existsb (Z.eqb addr) (ss_entries s)); [intros E; inversion E; reflexivity|].
+  destruct (ss_addrtab s).
+  - unfold request, all_ok. cbn. intros E; inversion E; reflexivity.
+  - destruct (new_section all_ok addrtab_order s k) as [[r1 s1] k1] eqn:NS. rewrite (new_section_all_ok _ _ _ _ _ _ B NS).
+    unfold request, all_ok. cbn. intros E; inversion E; reflexivity.
+Qed.
+
+Lemma new_reloc_all_ok ty h k r h' k' : holder_small h -> new_reloc all_ok ty h k = (r, h', k') -> r <> Oom.
+Proof.
+  unfold holder_small, max_items. intros [B1 B2].
+  unfold new_reloc, relocs_vec, vec_reserve_one, vec_reserve_grow, vec_reserve_bytes, request, all_ok, vsize, max_items; cbn [v_items v_cap];
+    never_oom_tac.
+Qed.
+
+Definition holder2_small (h : holder2) : Prop := holder_small (h2_base h) /\ sects_small (h2_sects h).
+
+Theorem holder2_all_ok_never_oom op h k r h' k' :
+  holder2_small h -> holder2_step all_ok true op h k = (r, h', k') -> r <> Oom.
+Proof.
+  intros [B1 B2]. destruct op as [o|order|addr|addr]; cbn [holder2_step].
+  - destruct (holder_step all_ok true o (h2_base h) k) as [[r1 b] k1] eqn:HS. intros E; inversion E; subst.
+    exact (holder_all_ok_never_oom _ _ _ _ _ _ B1 HS).
+  - destruct (new_section all_ok order (h2_sects h) k) as [[r1 s] k1] eqn:NS. intros E; inversion E; subst.
+    rewrite (new_section_all_ok _ _ _ _ _ _ B2 NS). discriminate.
+  - destruct (add_address all_ok addr (h2_sects h) k) as [[r1 s] k1] eqn:AA. intros E; inversion E; subst.
+    rewrite (add_address_all_ok _ _ _ _ _ _ B2 AA). discriminate.
+  - unfold call_abs. destruct (new_reloc all_ok 5 (h2_base h) k) as [[r1 b1] k1] eqn:NR.
+    pose proof (new_reloc_all_ok 5 _ _ _ _ _ B1 NR) as N1.
+    destruct r1; [|contradiction|].
+    + destruct (add_address all_ok addr (h2_sects h) k1) as [[r2 s2] k2] eqn:AA. rewrite (add_address_all_ok _ _ _ _ _ _ B2 AA).
+      intros E; inversion E; discriminate.
+    + intros E; inversion E; discriminate.
+Qed.
+
+(* ---- ConstPool and Builder: never spurious (round 6) ---- *)
+Lemma pool_add_all_ok_never_oom d p k r o p' k' : pool_add all_ok d p k = (r, o, p', k') -> r <> Oom.
+Proof.
+  unfold pool_add, request, all_ok.
+  repeat (cbn beta iota zeta; match goal with
+    | |- context [if ?c then _ else _] => destruct c
+    | |- context [match ?x with _ => _ end] => lazymatch x with (_, _) => fail | _ => destruct x end
+    end); cbn beta iota zeta; intros E; inversion E; discriminate.
+Qed.
+
+Theorem pool_run_all_ok_never_oom ds : forall p k rs p' k', pool_run all_ok ds p k = (rs, p', k') -> ~ In Oom (map fst rs).
+Proof.
+  induction ds as [|d t IH]; intros p k rs p' k' E; cbn [pool_run] in E.
+  - inversion E; subst. intros [].
+  - destruct (pool_add all_ok d p k) as [[[r o] p1] k1] eqn:S1. destruct (pool_run all_ok t p1 k1) as [[rs2 p2] k2] eqn:S2.
+    inversion E; subst; clear E. cbn [map fst]. intros [F|F].
+    + exact (pool_add_all_ok_never_oom _ _ _ _ _ _ _ S1 F).
+    + exact (IH _ _ _ _ _ S2 F).
+Qed.
+
+Definition builder_small (h : holder2) (b : bld) : Prop :=
+  holder_small (h2_base h) /\ Z.of_nat (length (ss_orders (h2_sects h))) + 2 < max_items /\
+  Z.of_nat (length (b_lnodes b)) + 2 < max_items /\ Z.of_nat (length (b_snodes b)) + 2 < max_items.
+
+Theorem builder_all_ok_never_oom op h b k r h' b' k' :
+  builder_small h b -> builder_step all_ok op h b k = (r, h', b', k') -> r <> Oom.
+Proof.
+  unfold builder_small, holder_small, max_items. intros [[B1 B2] [B3 [B4 B5]]].
+  destruct op; unfold builder_step; cbn [builder_step_gen];
+    unfold b_new_label, b_bind, b_section, b_const_pool, b_label_node, new_label, labels_vec, bools_vec,
+      vec_reserve_one, vec_reserve_additional, vec_reserve_grow, vec_reserve_bytes, request, all_ok, vsize, max_items;
+    cbn [b_simple_node v_items v_cap]; unfold request, all_ok; rewrite ?map_length;
+    repeat (cbn beta iota zeta; match goal with
+      | |- context [if ?c then _ else _] => destruct c eqn:?
+      end);
+    cbn beta iota zeta;
+    rewrite ?Z.leb_le, ?Z.leb_gt, ?Z.ltb_lt, ?Z.ltb_ge, ?Z.eqb_eq, ?Z.eqb_neq, ?Nat.ltb_lt, ?Nat.ltb_ge in *;
+    intros E; inversion E; subst; try discriminate; try lia.
+Qed.
+
+(* ---- frame conditions (round 6) ---- *)
+Local Close Scope Z_scope.
+(* VirtMem / JitAllocator blocks: what a step must NOT touch - every handle other than the one it releases keeps its views, an
+   allocating step only appends one handle, ids stay fresh, and the request counters move by at most 2 (mmap) and 1 (malloc) *)
+Definition vmop_target (op : vmop) : option nat := match op with VRel i | VDel i => Some i | _ => None end.
+
+Theorem vm_step_frame okv okh op s kv kh r s' kv' kh' :
+  vm_step okv okh op s kv kh = (r, s', kv', kh') ->
+  (forall i, i < length (vs_handles s) -> vmop_target op <> Some i -> nth i (vs_handles s') None = nth i (vs_handles s) None) /\
+  length (vs_handles s') = (match vmop_target op with Some _ => length (vs_handles s) | None => S (length (vs_handles s)) end) /\
+  vs_next s <= vs_next s' /\ kv <= kv' <= kv + 2 /\ kh <= kh' <= kh + 1 /\
+  (r <> Ok -> match vmop_target op with Some _ => s' = s | None => True end).
+Proof.
+  destruct op as [| |i|dual|i]; cbn [vm_step vmop_target]; unfold vm_dual, vm_map, push_handle;
+    repeat match goal with
+           | |- context [if ?c then _ else _] => destruct c
+           | |- context [match nth ?i ?l None with _ => _ end] => destruct (nth i l None) eqn:?
+           end; intros E; inversion E; subst; clear E; cbn [vs_handles vs_next vs_heap vs_views];
+    (split; [intros j Hj NE; try (rewrite app_nth1 by exact Hj; reflexivity); try reflexivity;
+             try (apply nth_upd_nth_other; intros ->; apply NE; reflexivity) |]);
+    (split; [try (rewrite app_length; cbn; lia); try (apply upd_nth_length); try reflexivity|]);
+    (split; [lia|]); (split; [lia|]); (split; [lia|]); try (intros _; exact I); try (intros X; exfalso; apply X; reflexivity); try reflexivity; auto.
+Qed.
+
+(* RA home slots: a step on register w touches nothing that belongs to another register *)
+Theorem ra_step_frame ok op s k r s' k' :
+  ra_step ok op s k = (r, s', k') ->
+  (forall w', w' <> raop_reg op -> has_home s' w' = has_home s w') /\
+  (ra_slots s' = ra_slots s \/ ra_slots s' = ra_slots s ++ [raop_reg op]) /\
+  (ra_refs s' = ra_refs s \/ (op = RAsMem (raop_reg op) /\ ra_refs s' = raop_reg op :: ra_refs s)) /\
+  k <= k' <= k + 2.
+Proof.
+  destruct op as [w|w]; cbn [ra_step raop_reg]; unfold ra_new_slot, vec_reserve_one, vec_reserve_grow, vec_reserve_bytes, request, has_home;
+    cbn [v_cap v_items];
+    repeat match goal with |- context [if ?c then _ else _] => destruct c end;
+    intros E; inversion E; subst; clear E; cbn [ra_home ra_slots ra_refs ra_cap];
+    (split; [intros w' NE; try reflexivity; apply nth_upd_nth_other; auto|]);
+    (split; [auto|]); (split; [auto|lia]).
+Qed.
+
+Local Open Scope Z_scope.
+
+(* ---- CodeHolder, whole scripts: never spurious (round 6) ---- *)
+Lemma holder_step_growth ok op h k r h' k' :
+  holder_step ok true op h k = (r, h', k') ->
+  (length (ho_labels h') <= S (length (ho_labels h)))%nat /\ (length (ho_relocs h') <= S (length (ho_relocs h)))%nat.
+Proof.
+  destruct op; cbn [holder_step]; unfold embed_label, embed_delta, new_label, new_reloc, new_fixup, bind_label, pop_reloc, labels_vec, relocs_vec,
+    vec_reserve_one, vec_reserve_grow, vec_reserve_bytes, request; cbn [v_items v_cap];
+    repeat match goal with
+      | |- context [if ?c then _ else _] => destruct c
+      | |- context [match ho_fixup_pool ?x with _ => _ end] => destruct (ho_fixup_pool x)
+      | |- context [match nth_error ?a ?b with _ => _ end] => destruct (nth_error a b)
+      | |- context [match ho_labels ?x with _ => _ end] => destruct (ho_labels x) eqn:?
+      end;
+    intros E; inversion E; subst; cbn; rewrite ?removelast_last, ?app_length, ?upd_nth_length; cbn;
+    repeat match goal with H : ho_labels ?x = _ |- _ => rewrite ?H; clear H end; cbn; try lia.
+Qed.
+
+(* whole scripts: when no request fails and the label / relocation vectors stay below the 32-bit limit for the whole script
+   (their lengths plus the number of operations), no operation reports kOutOfMemory *)
+Theorem holder_run_all_ok_never_oom ops : forall h k rs h' k',
+  Z.of_nat (length (ho_labels h)) + Z.of_nat (length ops) + 2 < max_items ->
+  Z.of_nat (length (ho_relocs h)) + Z.of_nat (length ops) + 2 < max_items ->
+  holder_run all_ok true ops h k = (rs, h', k') -> ~ In Oom rs.
+Proof.
+  induction ops as [|op t IH]; intros h k rs h' k' B1 B2 E; cbn [holder_run] in E.
+  - inversion E; subst. intros [].
+  - destruct (holder_step all_ok true op h k) as [[r h1] k1] eqn:S1. destruct (holder_run all_ok true t h1 k1) as [[rs2 h2] k2] eqn:S2.
+    inversion E; subst; clear E. cbn [length] in B1, B2.
+    destruct (holder_step_growth all_ok op h k r h1 k1 S1) as [G1 G2].
+    intros [F|F].
+    + apply (holder_all_ok_never_oom op h k r h1 k1); [split; lia|exact S1|exact F].
+    + apply (IH h1 k1 rs2 h' k'); [lia|lia|exact S2|exact F].
+Qed.
